@@ -181,6 +181,9 @@ MoveProgs ==
   \cup {<< Leaf(1, c[1], "A", FALSE), [k |-> "op", h |-> 2, f |-> "broadcast_to", a |-> <<Opnd(1)>>, sh |-> c[2]] >> :
           c \in {<<<<3, 1>>, <<3, 4>>>>, <<<<2, 1, 3>>, <<2, 2, 3>>>>, <<<<1, 3>>, <<2, 3>>>>, <<<<3, 1>>, <<2, 3, 2>>>>,
                  <<<<1, 2, 1>>, <<2, 2, 3>>>>, <<<<>>, <<2, 2>>>>, <<<<1>>, <<3>>>>}}
+  \* atleast_kd where it really adds axes (a request that changes nothing hands back the operand: known finding F-C04-1)
+  \cup {<< Leaf(1, c[1], "A", FALSE), [k |-> "op", h |-> 2, f |-> "atleast", a |-> <<Opnd(1)>>, nd |-> c[2]] >> :
+          c \in {<<<<>>, 1>>, <<<<>>, 2>>, <<<<>>, 3>>, <<<<3>>, 2>>, <<<<3>>, 3>>, <<<<2, 3>>, 3>>}}
   \cup {<< Leaf(1, <<3, 3>>, "A", FALSE), [k |-> "op", h |-> 2, f |-> "diag", a |-> <<Opnd(1)>>] >>,
         << Leaf(1, <<2, 1, 3>>, "A", FALSE), [k |-> "op", h |-> 2, f |-> "squeeze", a |-> <<Opnd(1)>>] >>,
         << Leaf(1, <<2, 1, 3>>, "A", FALSE), [k |-> "op", h |-> 2, f |-> "squeeze", a |-> <<Opnd(1)>>, axis |-> <<1>>] >>}
